@@ -77,9 +77,15 @@ Definition spec_first (rs : list host_result) : Z :=
   end.
 Definition spec_last (rs : list host_result) : Z := foldr Z.max ZERO_T (hr_last <$> oks rs).
 
+(* time binning (statements with the time label and a resolution above 5m): the rows are re-grouped by
+   (bin end, labels, attributes) with summed counters, sorted by time, and the hit count is their number *)
+Definition spec_binned (st : stmt) (u : list row) : option (list row) :=
+  if (st_bin st =? 0) || (zlen u =? 0) then None
+  else Some (sort_rows (row_less ST_TIME) (union_rows ((fun r : row => (bin_key (st_bin st) r.1, r.2)) <$> u))).
+
 Definition spec_obs (st : stmt) (rs : list host_result) : obs :=
   let u := union_rows (all_rows rs) in
-  let sorted := sort_rows (row_less st) u in
+  let sorted := match spec_binned st u with Some b => b | None => sort_rows (row_less st) u end in
   let rows := if st_num st <? zlen sorted then ztake (st_num st) sorted else sorted in
   Obs rows
       (sort_statuses (spec_statuses rs))
@@ -88,8 +94,10 @@ Definition spec_obs (st : stmt) (rs : list host_result) : obs :=
       (spec_first rs) (spec_last rs)
       (csum (hr_totals <$> oks rs))
       (ssum (omap hr_stats (oks rs)))
-      (* hit count: every row that was merged into an existing one is deducted *)
-      (wrap_int (zsum (hr_hits <$> oks rs) - (zlen (all_rows rs) - zlen u)))
+      (match spec_binned st u with
+       | Some b => zlen b
+       (* hit count: every row that was merged into an existing one is deducted *)
+       | None => wrap_int (zsum (hr_hits <$> oks rs) - (zlen (all_rows rs) - zlen u)) end)
       (zlen rows)
       (if zlen rows =? 0 then ST_MISSING else ST_OK).
 
